@@ -262,6 +262,23 @@ def parse_schema(
     if named_schemas is None:
         named_schemas = {}
 
+    # A named type is registered before its definition is complete. A parse
+    # that fails must not leave such a half-built definition in the place of an
+    # entry the caller's dictionary had before: schemas parsed earlier against
+    # that dictionary still refer to it.
+    registered_before = dict(named_schemas)
+    try:
+        return _parse_schema_entry(
+            schema, named_schemas, expand, _write_hint, _force, _ignore_default_error
+        )
+    except Exception:
+        named_schemas.update(registered_before)
+        raise
+
+
+def _parse_schema_entry(
+    schema, named_schemas, expand, _write_hint, _force, _ignore_default_error
+):
     if isinstance(schema, dict) and "__fastavro_parsed" in schema:
         if "__named_schemas" in schema:
             for key, value in schema["__named_schemas"].items():
